@@ -128,27 +128,27 @@ type RowChange struct {
 }
 
 type JournalEntry struct {
-	Seq        int64
-	SeqOut     int64
-	Conn       int
-	User       string
-	Class      string // connection class: value of @verif_class, else the login user
-	SQL        string
-	Args       []interface{}
-	Kind       string
-	Table      string // target table of a DML/SELECT (upper case), "" otherwise
-	Err        *MyErr
-	Injected   string // "", "error", "drop-before", "drop-after", "delay"
-	Affected   uint64
-	LastID     uint64
-	Changes    []RowChange // ground-truth row diff of this command (in transaction scope)
-	Committed  []RowChange // rows made durable by this command (COMMIT / autocommit / XA COMMIT / implicit commit)
-	Matched    []string    // pk keys of the rows the statement's WHERE/ORDER/LIMIT selected (DML and locking reads)
-	MatchedRows [][]interface{} // pre-statement content of those rows (same order as Matched)
-	InTxBefore bool
-	InTxAfter  bool
-	NRows      int
-	Prepared   bool // arrived through COM_STMT_EXECUTE
+	Seq            int64
+	SeqOut         int64
+	Conn           int
+	User           string
+	Class          string // connection class: value of @verif_class, else the login user
+	SQL            string
+	Args           []interface{}
+	Kind           string
+	Table          string // target table of a DML/SELECT (upper case), "" otherwise
+	Err            *MyErr
+	Injected       string // "", "error", "drop-before", "drop-after", "delay"
+	Affected       uint64
+	LastID         uint64
+	Changes        []RowChange     // ground-truth row diff of this command (in transaction scope)
+	Committed      []RowChange     // rows made durable by this command (COMMIT / autocommit / XA COMMIT / implicit commit)
+	Matched        []string        // pk keys of the rows the statement's WHERE/ORDER/LIMIT selected (DML and locking reads)
+	MatchedRows    [][]interface{} // pre-statement content of those rows (same order as Matched)
+	InTxBefore     bool
+	InTxAfter      bool
+	NRows          int
+	Prepared       bool // arrived through COM_STMT_EXECUTE
 	ImplicitCommit bool
 }
 
@@ -162,13 +162,13 @@ type overlayEntry struct {
 
 type txState struct {
 	readOnly bool
-	active  bool
-	overlay map[string]map[string][]interface{} // table -> key -> row (nil = deleted)
-	present map[string]map[string]bool          // whether key is in overlay
-	undo    []overlayEntry
-	locks   map[string]bool
-	saves   []savepoint
-	changes []RowChange
+	active   bool
+	overlay  map[string]map[string][]interface{} // table -> key -> row (nil = deleted)
+	present  map[string]map[string]bool          // whether key is in overlay
+	undo     []overlayEntry
+	locks    map[string]bool
+	saves    []savepoint
+	changes  []RowChange
 }
 
 type savepoint struct {
@@ -178,10 +178,10 @@ type savepoint struct {
 
 // Action is what an injector wants done with a command.
 type Action struct {
-	Err       *MyErr // fail the command with this error instead of executing it
-	DropBefore bool  // close the connection without executing and without replying
-	DropAfter  bool  // execute, then close the connection without replying
-	Note      string
+	Err        *MyErr // fail the command with this error instead of executing it
+	DropBefore bool   // close the connection without executing and without replying
+	DropAfter  bool   // execute, then close the connection without replying
+	Note       string
 }
 
 type Engine struct {
@@ -196,9 +196,9 @@ type Engine struct {
 	Journal []*JournalEntry
 	// Inject is consulted for every command after it was journalled and before it executes. It runs WITHOUT the
 	// engine lock and may block (logical barriers).
-	Inject   func(e *JournalEntry) *Action
-	LockWait time.Duration
-	sessions map[int]*Session
+	Inject           func(e *JournalEntry) *Action
+	LockWait         time.Duration
+	sessions         map[int]*Session
 	AutoIncIncrement int64
 }
 
